@@ -263,6 +263,17 @@ def splitter(ctx, cfg, fs):
             rs = provenance(b, st['rv']['op'], i, k, through=DEFAULT_THROUGH + [r'core::str::traits::<impl .* for str>::index$', STR_SUBSLICE]) if st['rv']['k'] == 'use' else []
             good &= bool(rs) and all((r.kind == 'param' and r.what == 'self' and r.path[:1] == ['input']) or (r.kind == 'const' and r.what == '') for r in rs)
     ctx.ob('S.splitter', 'Splitter::next:input-is-suffix', good and n >= 5, 'the remaining input is always re-assigned from a sub-slice of itself or "" (%d assignments): %s' % (n, good), where=b.where(), cfg=cfg)
+    # ... and each step cuts a BOUNDED piece off the front (a constant prefix, up to a separator found by search, a computed
+    # offset): `trim*` removes a run of unknown length and treats '\n' as whitespace, so a blank line - the paragraph break the
+    # short help ends at - can vanish together with the indentation somebody meant to drop
+    STR_CUT = r'str::<impl str>::(strip_prefix|strip_suffix|split_once|rsplit_once|split_at|split_at_checked|get|get_unchecked|split_first\w*)$'
+    unb = []
+    for i, k, st in b.stmts():
+        if st['k'] == 'assign' and place_fields(st['lhs']) == ['input'] and st['rv']['k'] == 'use':
+            for r in provenance(b, st['rv']['op'], i, k, through=DEFAULT_THROUGH + [r'core::str::traits::<impl .* for str>::index$', STR_CUT]):
+                if r.kind == 'call' and r.call.is_(r'str::<impl str>::trim'):
+                    unb.append('%s at %s' % (r.call.name.split('::')[-1], b.where(r.call.bb)))
+    ctx.ob('S.splitter', 'Splitter::next:input-cut-is-bounded', not unb, 'the remaining input never loses an unbounded run of characters (trim*): %s' % (unb or 'ok'), where=b.where(), cfg=cfg)
     # the width handed out with a word is its number of characters: in the loop form the counter is incremented on EVERY way
     # around the scan loop (no character class is exempt); in the find form it is head.chars().count()
     ci = [c for c in b.calls() if c.is_(r'CharIndices.*Iterator>::next$')]
